@@ -414,6 +414,7 @@ func runC13(p *core.Prog, r *core.Report) {
 	r.Guard("C13.R1", "derived", "Count and derived segmenters", func() { checkSegmenterDerived(p, r) })
 	r.Guard("C13.R5", "Range.Split", "chunks are contiguous and cover the range", func() { checkRangeSplit(p, r) })
 	r.Guard("C13.R6", "Ranges.Merged", "merging only adjacent ranges", func() { checkRangesMerged(p, r) })
+	r.GuardExact("C13.R6", "Ranges.Merged/zero", "block 0 is not a sentinel", func() { checkMergedNoZeroSentinel(p, r, "C13.R6") })
 	r.Guard("C13.R5", "range-immutable", "derived ranges never move the receiver", func() { checkRangeReceiverUntouched(p, r, "C13.R5") })
 	r.Guard("C13.R1", "with-initial-block", "re-basing rebuilds the segmenter", func() { checkWithInitialBlock(p, r, "C13.R1") })
 
